@@ -77,6 +77,10 @@ func genResult(r *hx.Rand, i int) ResT {
 	if r.Chance(1, 3) {
 		res.Cfg = append(res.Cfg, CfgT{".file", hx.Pick(r, []string{"a.txt", "b.txt"}), false})
 	}
+	if r.Chance(1, 6) {
+		// no measurements: on a .unit projection the closures run (fields may appear) but no key is made
+		return res
+	}
 	res.Units = []string{hx.Pick(r, []string{"ns/op", "ns/op", "B/op"})}
 	for j := r.Intn(3); j > 0; j-- {
 		res.Units = append(res.Units, hx.Pick(r, []string{"ns/op", "B/op", "allocs/op"}))
@@ -88,6 +92,8 @@ type base struct {
 	exprs    [][]SpecT
 	withUnit []bool
 	results  []ResT
+	failAt   int // >= 0: insert a rejected Parse call (see scenarioOf)
+	failExpr []SpecT
 }
 
 func genBase(r *hx.Rand) base {
@@ -96,6 +102,11 @@ func genBase(r *hx.Rand) base {
 	for i := 0; i < n; i++ {
 		b.exprs = append(b.exprs, genExpr(r))
 		b.withUnit = append(b.withUnit, r.Chance(1, 5))
+	}
+	b.failAt = -1
+	if r.Chance(1, 3) {
+		b.failAt = r.Intn(1000)
+		b.failExpr = genExpr(r)
 	}
 	nres := 3 + r.Intn(8)
 	for i := 0; i < nres; i++ {
@@ -112,11 +123,46 @@ func genBase(r *hx.Rand) base {
 // residue, and projects every result on every projection.
 func scenarioOf(b base, perm []int, residue bool, tags ...string) Scenario {
 	sc := Scenario{S: true, Tags: tags}
-	for _, i := range perm {
+	for n, i := range perm {
 		k := byte('P')
 		if b.withUnit[i] {
 			k = 'U'
 			sc.Tags = append(sc.Tags, "unit")
+		}
+		// A REJECTED call (a copy of an accepted expression, or an unrelated one, with a part
+		// Parse refuses at the end or in the middle), before or after an accepted call: it must
+		// change nothing.
+		if b.failAt >= 0 && (b.failAt%len(perm)) == n {
+			src := b.exprs[perm[(n+b.failAt/7)%len(perm)]]
+			if b.failAt%5 < 3 {
+				// …or an unrelated expression naming NEW keys or groups: since /repo 91c9aa7 a
+				// rejected call leaves no trace, so these stay in .config/.fullname/Residue
+				src = b.failExpr
+			}
+			bad := append([]SpecT(nil), src...)
+			badPart := []SpecT{{Key: ".unit", Order: "first"}, {Key: ".config", Order: "fixed", Fixed: []string{"a"}}, {Key: "", Order: "first"}, {Key: "k0", Order: "fixed"}}[b.failAt%4]
+			if b.failAt%3 == 0 && len(bad) > 0 {
+				bad = append(append(append([]SpecT(nil), bad[:len(bad)/2]...), badPart), bad[len(bad)/2:]...)
+			} else {
+				bad = append(bad, badPart)
+			}
+			after := b.failAt%2 == 1
+			if !after {
+				sc.Ops = append(sc.Ops, Op{Kind: 'P', Specs: bad})
+			}
+			sc.Tags = append(sc.Tags, "rejected")
+			sc.Ops = append(sc.Ops, Op{Kind: k, Specs: b.exprs[i]})
+			if after {
+				sc.Ops = append(sc.Ops, Op{Kind: 'P', Specs: bad})
+			}
+			for _, s := range b.exprs[i] {
+				if s.Key == ".config" || s.Key == ".fullname" {
+					sc.Tags = append(sc.Tags, "group")
+				} else {
+					sc.Tags = append(sc.Tags, "specific")
+				}
+			}
+			continue
 		}
 		sc.Ops = append(sc.Ops, Op{Kind: k, Specs: b.exprs[i]})
 		for _, s := range b.exprs[i] {
